@@ -167,6 +167,7 @@ FinishClauses(st, o) ==
                     \* a listing that is not made of whole, in-domain schedule records is outside every statement
                     ELSE IF st.op = "get_schedules" /\ ~LastR(st).empty /\ ~LastR(st).wf THEN <<>>
                     ELSE <<"C09:generic-operation-must-return-a-response">>
+                         \o (IF st.op = "get_schedules" THEN <<"C10:whole-record-listing-not-returned">> ELSE <<>>)
                [] ex.fin = "tail" ->
                     IF o.out = "return" \/ (o.out = "runtime" /\ LastR(st).empty) THEN <<>> ELSE <<"C16:swing-command-outcome">>)
 
